@@ -495,6 +495,51 @@ impl Chain {
 }
 
 // ---------------------------------------------------------------------------------------------
+// watchdog: a call that never returns (e.g. next() spinning on a kid cycle) must become a
+// failing outcome, not a stalled check
+
+const HANG_SECS: u64 = 20;
+
+struct Watch {
+    slots: Vec<Mutex<Option<(std::time::Instant, Value)>>>,
+    done: std::sync::atomic::AtomicBool,
+}
+
+impl Watch {
+    fn new() -> Watch {
+        Watch { slots: (0..rayon::current_num_threads() + 1).map(|_| Mutex::new(None)).collect(), done: std::sync::atomic::AtomicBool::new(false) }
+    }
+    fn slot(&self) -> &Mutex<Option<(std::time::Instant, Value)>> {
+        &self.slots[rayon::current_thread_index().map(|i| i + 1).unwrap_or(0).min(self.slots.len() - 1)]
+    }
+    /// Run `f` on `case`; while it runs the watchdog knows which case this thread is executing.
+    fn guarded<T>(&self, case: &Value, f: impl FnOnce() -> T) -> T {
+        *self.slot().lock().unwrap() = Some((std::time::Instant::now(), case.clone()));
+        let r = f();
+        *self.slot().lock().unwrap() = None;
+        r
+    }
+    /// Body of the watchdog thread: a case running longer than HANG_SECS is reported and the check ends with exit code 1.
+    fn patrol(&self, run: &Run) {
+        while !self.done.load(Ordering::SeqCst) {
+            std::thread::sleep(std::time::Duration::from_millis(250));
+            for s in &self.slots {
+                let stuck = match &*s.lock().unwrap() {
+                    Some((t, case)) if t.elapsed().as_secs() >= HANG_SECS => Some(case.clone()),
+                    _ => None,
+                };
+                if let Some(case) = stuck {
+                    let stuck_text = case.to_string();
+                    run.fail(None, case, &format!("page enumeration did not return within {} s (the check stops here)", HANG_SECS), "enumeration terminates within objects.len()+1 calls of next()");
+                    println!("C12 stopped by its watchdog: a call into lopdf did not return; case: {}", stuck_text);
+                    std::process::exit(1);
+                }
+            }
+        }
+    }
+}
+
+// ---------------------------------------------------------------------------------------------
 // oracles (main process)
 
 struct Drive {
@@ -611,6 +656,8 @@ fn child_main(file: &str, from: usize) -> ! {
     unsafe {
         let lim = libc::rlimit { rlim_cur: 2 << 30, rlim_max: 2 << 30 };
         libc::setrlimit(libc::RLIMIT_AS, &lim);
+        // a call that never returns ends the child with SIGALRM
+        libc::alarm(120);
     }
     util::quiet_panics();
     let text = std::fs::read_to_string(file).unwrap_or_else(|e| machinery(&format!("child cannot read {}: {}", file, e)));
@@ -684,7 +731,7 @@ fn run_in_children(cases: &[Value], label: &str) -> Vec<String> {
                     _ => "unknown status".to_string(),
                 };
                 let err = String::from_utf8_lossy(&out.stderr);
-                let err = err.trim().lines().last().unwrap_or("").to_string();
+                let err = err.trim().lines().next().unwrap_or("").to_string();
                 res[i] = Some(format!("died {} {}", how, vharness::run::truncate(&err, 200)));
                 from = i + 1;
             }
@@ -728,7 +775,7 @@ fn tree_case(t: &Tree, rev: bool, m: Option<&Value>) -> Value {
 
 fn with_doc(mut case: Value, doc: &Document) -> Value {
     if doc.objects.len() <= 40 {
-        case["doc_for_reading"] = doc_to_json(doc);
+        case["zz_doc_for_reading"] = doc_to_json(doc);
     }
     case
 }
@@ -738,7 +785,7 @@ struct Bounds {
     mutated_nodes: usize,
 }
 
-fn explore_valid(run: &Run, b: &Bounds, max_calls: &AtomicU64) {
+fn explore_valid(run: &Run, b: &Bounds, max_calls: &AtomicU64, watch: &Watch) {
     let mut work: Vec<Vec<Option<usize>>> = vec![];
     let mut per_size = vec![];
     for n in (1..=b.valid_nodes).rev() {
@@ -752,7 +799,7 @@ fn explore_valid(run: &Run, b: &Bounds, max_calls: &AtomicU64) {
         let parent = &work[w];
         let opts = options(parent);
         let nv = n_variants(&opts);
-        let (mut cases, mut nontrivial) = (0u64, 0u64);
+        let (mut cases, mut nontrivial) = (0u64, Vec::<u64>::new());
         for v in 0..nv {
             let t = Tree::from_parents(parent, variant(&opts, v));
             for rev in [false, true] {
@@ -760,23 +807,26 @@ fn explore_valid(run: &Run, b: &Bounds, max_calls: &AtomicU64) {
                 let want = expected_pages(&t, &b);
                 cases += 1;
                 if t.has_intermediate() {
-                    nontrivial += 1;
+                    nontrivial.push(vharness::cmp::digest_doc(&b.doc));
                 }
-                if let Err(e) = check_valid(&b.doc, &want, max_calls) {
-                    run.fail(None, with_doc(tree_case(&t, rev, None), &b.doc), &e, "page_iter() = depth-first left-to-right Page leaves; get_pages() = that list numbered 1..n");
+                let case = tree_case(&t, rev, None);
+                if let Err(e) = watch.guarded(&case, || check_valid(&b.doc, &want, max_calls)) {
+                    run.fail(None, with_doc(case, &b.doc), &e, "page_iter() = depth-first left-to-right Page leaves; get_pages() = that list numbered 1..n");
                 }
-                if t.len() == 6 && v == nv / 2 && rev && sampled.fetch_add(1, Ordering::Relaxed) < 2 {
+                if t.len() >= 6 && rev && want.len() >= 3 && t.kind.iter().filter(|k| **k == Kind::PagesInd).count() == 1 && t.has_intermediate() && v > nv / 2
+                    && sampled.fetch_add(1, Ordering::Relaxed) < 2
+                {
                     run.sample(json!({"case": with_doc(tree_case(&t, rev, None), &b.doc), "expected_pages": want.iter().map(|p| p.0).collect::<Vec<_>>()}));
                 }
             }
         }
         run.eval(cases * 2);
-        run.nontrivial(nontrivial);
+        nontrivial.iter().for_each(|h| run.nontrivial_hash(*h));
         run.add("valid", cases);
     });
 }
 
-fn explore_chains(run: &Run, max_calls: &AtomicU64) {
+fn explore_chains(run: &Run, max_calls: &AtomicU64, watch: &Watch) {
     let mut chains = vec![];
     for depth in [255usize, 256, 257, 300] {
         for siblings in ["none", "after", "before"] {
@@ -797,13 +847,13 @@ fn explore_chains(run: &Run, max_calls: &AtomicU64) {
         run.nontrivial(1);
         if c.max_pending() <= LIMIT {
             run.add("chains_exact", 1);
-            if let Err(e) = check_valid(&b.doc, &want, max_calls) {
+            if let Err(e) = watch.guarded(&c.to_json(), || check_valid(&b.doc, &want, max_calls)) {
                 run.fail(None, c.to_json(), &e, "page_iter() = depth-first left-to-right Page leaves; get_pages() numbered 1..n (at most 256 sibling lists pending)");
             }
         } else {
             // more pending sibling lists than the documented limit: termination and type safety only
             run.add("chains_beyond_limit", 1);
-            match check_lenient(&b.doc, max_calls).and_then(|got| check_get_pages_lenient(&b.doc).map(|_| got)) {
+            match watch.guarded(&c.to_json(), || check_lenient(&b.doc, max_calls).and_then(|got| check_get_pages_lenient(&b.doc).map(|_| got))) {
                 Ok(got) => beyond.lock().unwrap().push(json!({"chain": c.to_json(), "pages_in_tree": want.len(), "pages_yielded": got.len()})),
                 Err(e) => run.fail(None, c.to_json(), &e, "terminates within objects.len()+1 calls and yields only page objects"),
             }
@@ -816,7 +866,7 @@ fn explore_chains(run: &Run, max_calls: &AtomicU64) {
     run.sample(chains[13].to_json());
 }
 
-fn explore_malformed(run: &Run, b: &Bounds, max_calls: &AtomicU64) {
+fn explore_malformed(run: &Run, b: &Bounds, max_calls: &AtomicU64, watch: &Watch) {
     let mut work: Vec<Vec<Option<usize>>> = vec![];
     for n in (1..=b.mutated_nodes).rev() {
         work.extend(shapes(n));
@@ -826,7 +876,7 @@ fn explore_malformed(run: &Run, b: &Bounds, max_calls: &AtomicU64) {
     util::par_for(work.len(), |w| {
         let parent = &work[w];
         let opts = options(parent);
-        let (mut cases, mut nontrivial) = (0u64, 0u64);
+        let (mut cases, mut nontrivial) = (0u64, Vec::<u64>::new());
         let mut mine = vec![];
         for v in 0..n_variants(&opts) {
             let t = Tree::from_parents(parent, variant(&opts, v));
@@ -837,16 +887,21 @@ fn explore_malformed(run: &Run, b: &Bounds, max_calls: &AtomicU64) {
                     apply_mutation(&t, &mut bt, m);
                     cases += 1;
                     if t.has_intermediate() {
-                        nontrivial += 1;
+                        // different mutations can give the same document (a kid duplicated next to itself): count documents
+                        nontrivial.push(vharness::cmp::digest_doc(&bt.doc) ^ 0x5a5a);
                     }
                     let case = tree_case(&t, rev, Some(m));
-                    let mut res = check_lenient(&bt.doc, max_calls).map(|_| ());
-                    if res.is_ok() {
-                        if is_count_extreme(m) {
-                            mine.push((w, case.clone(), t.clone()));
+                    let extreme = is_count_extreme(m);
+                    let res = watch.guarded(&case, || {
+                        let r = check_lenient(&bt.doc, max_calls).map(|_| ());
+                        if r.is_ok() && !extreme {
+                            check_get_pages_lenient(&bt.doc).map(|_| ())
                         } else {
-                            res = check_get_pages_lenient(&bt.doc).map(|_| ());
+                            r
                         }
+                    });
+                    if res.is_ok() && extreme {
+                        mine.push((w, case.clone(), t.clone()));
                     }
                     if let Err(e) = res {
                         run.fail(None, with_doc(case.clone(), &bt.doc), &e, "terminates within objects.len()+1 calls of next(), yields only existing dictionaries of /Type /Page, no panic");
@@ -858,13 +913,14 @@ fn explore_malformed(run: &Run, b: &Bounds, max_calls: &AtomicU64) {
             }
         }
         run.eval(cases);
-        run.nontrivial(nontrivial);
+        nontrivial.iter().for_each(|h| run.nontrivial_hash(*h));
         run.add("malformed", cases);
         child_cases.lock().unwrap().extend(mine);
     });
+    run.set("wall_after_malformed_in_process_s", json!((run.elapsed() * 10.0).round() / 10.0));
     // get_pages() with an extreme Count: child processes only
     let mut cc = child_cases.into_inner().unwrap();
-    cc.sort_by(|a, b| (a.0, a.1.to_string()).cmp(&(b.0, b.1.to_string())));
+    cc.sort_by_cached_key(|a| (a.0, a.1.to_string()));
     let chunks = 16usize;
     let per = cc.len().div_ceil(chunks).max(1);
     let groups: Vec<&[(usize, Value, Tree)]> = cc.chunks(per).collect();
@@ -885,8 +941,8 @@ fn explore_malformed(run: &Run, b: &Bounds, max_calls: &AtomicU64) {
     });
     run.add("get_pages_in_child_process", cc.len() as u64);
     run.add("count_extreme_on_pending_sibling", predicted.load(Ordering::Relaxed));
-    if let Some(c) = cc.last() {
-        run.sample(json!({"case": c.1, "get_pages": "run in a child process under RLIMIT_AS 2 GiB"}));
+    if let Some(c) = cc.iter().rev().find(|c| sizehint_predicate(&c.2, &c.1["mutation"], 10)) {
+        run.sample(json!({"case": c.1, "get_pages": "run in a child process under RLIMIT_AS 2 GiB; the extreme Count sits on a sibling that is pending after the first page"}));
     }
 }
 
@@ -914,6 +970,13 @@ fn report_child_failure(run: &Run, case: &Value, t: &Tree, out: &str) {
 
 fn replay(run: &Run, path: &std::path::Path) -> ! {
     let case = vharness::run::read_replay(path);
+    // a call that never returns is a failing replay
+    std::thread::spawn(|| {
+        std::thread::sleep(std::time::Duration::from_secs(HANG_SECS));
+        println!("observed: page enumeration did not return within {} s", HANG_SECS);
+        println!("REPLAY property=C12 result=FAIL");
+        std::process::exit(1);
+    });
     let dummy = AtomicU64::new(0);
     let mut failed = false;
     let mut say = |what: &str, r: Result<String, String>| match r {
@@ -973,7 +1036,7 @@ fn main() {
     if let Mode::Replay(path) = run.mode.clone() {
         replay(&run, &path);
     }
-    let b = if run.thorough { Bounds { valid_nodes: 8, mutated_nodes: 5 } } else { Bounds { valid_nodes: 6, mutated_nodes: 4 } };
+    let b = if run.thorough { Bounds { valid_nodes: 8, mutated_nodes: 6 } } else { Bounds { valid_nodes: 7, mutated_nodes: 5 } };
     run.rule(&format!(
         "valid trees: every ordered rooted tree with <= {} nodes (root = the catalog's Pages node) x every typing of each leaf as Page / empty Pages \
          with direct Kids / empty Pages with Kids behind a reference x Kids direct or behind a reference for every inner node x ids ascending or \
@@ -982,17 +1045,24 @@ fn main() {
          reference to each ancestor / the node itself / a sibling again / the catalog, integer, direct Page dictionary, dangling reference, null; \
          Type missing/Foo/swapped/integer on every node; Kids missing/integer/dictionary/reference to a dictionary/dangling/nested array; \
          Count +1/-1/negative/real/name/missing/2^62/10^12/i64::MAX/reference to 2^62; catalog Pages missing/integer/direct dictionary/dangling/\
-         a Page; trailer Root missing/dangling) of every such tree with <= {} nodes. Distinct by construction; non-trivial = the tree has at \
-         least one intermediate (non-root) Pages node",
+         a Page; trailer Root missing/dangling) of every such tree with <= {} nodes. Non-trivial = the tree has at least one intermediate \
+         (non-root) Pages node; distinct = counted once per document digest (two mutations that produce the same document count once)",
         b.valid_nodes, b.mutated_nodes
     ));
     run.assume("valid = every node typed, Kids arrays of references to tree nodes, at most 256 sibling lists pending at once (PAGE_TREE_DEPTH_LIMIT bounds the code's stack of pending sibling lists); beyond that and for malformed trees only termination within objects.len()+1 calls of next(), type safety of the yielded ids and absence of panics are demanded");
     run.assume("get_pages() on a tree with an extreme /Count is executed only in child processes of this binary under RLIMIT_AS = 2 GiB; an abort, signal or non-zero exit of the child is the failing outcome");
     run.assume("/Count is correct in valid trees; the root of the tree is always a Pages node");
     let max_calls = AtomicU64::new(0);
-    explore_valid(&run, &b, &max_calls);
-    explore_chains(&run, &max_calls);
-    explore_malformed(&run, &b, &max_calls);
+    let watch = Watch::new();
+    std::thread::scope(|sc| {
+        sc.spawn(|| watch.patrol(&run));
+        explore_valid(&run, &b, &max_calls, &watch);
+        run.set("wall_after_valid_s", json!((run.elapsed() * 10.0).round() / 10.0));
+        explore_chains(&run, &max_calls, &watch);
+        run.set("wall_after_chains_s", json!((run.elapsed() * 10.0).round() / 10.0));
+        explore_malformed(&run, &b, &max_calls, &watch);
+        watch.done.store(true, Ordering::SeqCst);
+    });
     run.set("max_next_calls", json!(max_calls.load(Ordering::Relaxed)));
     run.exhaustive(true);
     run.finish();
